@@ -20,6 +20,13 @@ small real md-grids, quantity dimension 1, 2, 3:
 All expected matrices are built in triplet form from integer offset arithmetic (and, for the mortar blocks, from
 the per-interface projections, as the statement says).
 
+Mortar grids that do not match the PRIMARY grid (md-grids F - I: mortar grid refined, coarser and not nested, refined
+on one of several interfaces, re-triangulated 2-d mortar grid in 3-d): there the integrating and averaging projections
+to / from the primary faces differ, so each of the eight global projections is tied to its own per-interface
+projection (md-grids A - E are conforming on the primary side, where *_int and *_avg to the primary grid coincide).
+Order of requests: one MortarProjections object asked for the eight projections in the reversed order (averaging
+before integrating) and then a second time (the object stores what it has built); every answer must be the expected one.
+
 Detection power (scratch copy of /repo/src with the candidate defect below repaired so that the baseline exits 0,
 POREPY_SRC=<copy>, quick tier; every mutant run exited 1 with VIOLATION lines):
   M1 grid_operators._cell_projections: ``cell_offset = cell_ind[-1] + 1`` -> ``cell_offset += sd.num_cells`` (dim factor lost)
@@ -48,13 +55,17 @@ META = {
                  "SubdomainProjections methods run on stub grids with symbolic cell / face counts (<= 3 grids, all ordered sub-lists, dim 1-3); "
                  "entrywise placement, transposition, injectivity and identity postconditions discharged by z3 (linear integer arithmetic); "
                  "run-time contract sweep (bounded stand-in) for all projection classes: every projection matrix of the AD grid operators compared with an "
-                 "independently assembled 0/1 (or per-interface block) matrix for all orderings and subsets of the grid lists of four small "
-                 "real md-grids, quantity dimension 1-3",
+                 "independently assembled 0/1 (or per-interface block) matrix for all orderings and subsets of the grid lists of nine small "
+                 "real md-grids (four of them with mortar grids that do not match the primary grid), quantity dimension 1-3",
     "text": "Bounded (tier B): four small md-grids (2-D X-intersection with 0-d point; 2-D single fracture with a refined, non-matching 1-d grid; "
             "3-D with two intersecting fractures; 2-D with two co-dimension-2 point couplings), quantity dimension 1, 2, 3. SubdomainProjections: "
             "every ordered subset as constructor list x every ordered subset of it as argument, all four methods. BoundaryProjection: every "
             "ordered subset. MortarProjections: quick - every ordered subset of subdomains x a structured selection of interface lists and vice "
-            "versa; thorough - the full cross product of ordered subsets. Not covered: md-grids with more than four subdomains, interface lists "
+            "versa; thorough - the full cross product of ordered subsets. Added md-grids E (1-d grid coarsened, mortar finer than secondary) and F - I with "
+            "a replaced MORTAR grid, non-conforming on the primary side (F: 2-D, coarser and not nested, the two sides differ; G: two fractures, one "
+            "mortar grid refined, one conforming; H: X-intersection with one refined 2d-1d mortar grid; I: 3-D tetrahedra, 2-d mortar grid "
+            "re-triangulated), so that integrating and averaging primary projections differ. Order of requests: the 8 projections requested from one "
+            "object in reversed order and a second time (stored matrices), for a selection of list pairs. Not covered: md-grids with more than four subdomains, interface lists "
             "mixing co-dimensions (rejected by porepy by design), Trace/Divergence operators (not part of the statement).",
     "note": "per-interface projections MortarGrid.*(nd) are the reference blocks for the mortar clause (C26 covers them); the boundary blocks are "
             "additionally checked against the domain_boundary_faces tags; tolerance 1e-12 on non-integer mortar weights, exact equality for 0/1 matrices",
@@ -124,6 +135,68 @@ def build_mdgs(pp, np):
     mdg.replace_subdomains_and_interfaces({g1: coarse})
     mdg.compute_geometry()
     out.append(("E: 2-d single fracture, 1d grid coarsened to one cell (mortar finer than secondary)", mdg))
+
+    # F - I: the MORTAR grid itself is replaced, so that the interface is non-conforming on the PRIMARY side as well (integrating and
+    # averaging projections to / from the primary faces differ; A - E are conforming on the primary side).
+    def line(p0, p1, ts):
+        ts = np.asarray(ts, dtype=float)
+        g = pp.TensorGrid(ts)
+        p0, p1 = np.asarray(p0, dtype=float), np.asarray(p1, dtype=float)
+        g.nodes = p0[:, None] + (p1 - p0)[:, None] * ts[None, :]
+        g.compute_geometry()
+        return g
+
+    # F: 2-D, one fracture, mortar sides replaced by coarser grids that are NOT nested in the primary faces / secondary cells
+    # (fractional weights, the two sides differ)
+    mdg = pp.meshing.cart_grid([np.array([[0.0, 4.0], [1.0, 1.0]])], np.array([4, 2]))
+    intf = mdg.interfaces()[0]
+    sides = list(intf.side_grids)
+    new = {sides[0]: line([0, 1, 0], [4, 1, 0], [0, 0.375, 1]), sides[1]: line([0, 1, 0], [4, 1, 0], [0, 0.625, 0.75, 1])}
+    mdg.replace_subdomains_and_interfaces(interface_map={intf: new})
+    mdg.compute_geometry()
+    out.append(("F: 2-d single fracture, mortar grid coarser and not nested (non-conforming on both sides)", mdg))
+    # G: 2-D, two parallel fractures; mortar grid of the first refined (ratio 3 on one side, 2 on the other), the second conforming
+    mdg = pp.meshing.cart_grid([np.array([[0.0, 4.0], [1.0, 1.0]]), np.array([[1.0, 3.0], [2.0, 2.0]])], np.array([4, 3]))
+    intf = mdg.interfaces()[0]
+    new = {s: pp.refinement.refine_grid_1d(g, ratio=3 - k) for k, (s, g) in enumerate(intf.side_grids.items())}
+    mdg.replace_subdomains_and_interfaces(interface_map={intf: new})
+    mdg.compute_geometry()
+    out.append(("G: 2-d two parallel fractures, mortar grid of the first refined (one conforming and one non-conforming interface)", mdg))
+    # H: 2-D X intersection, mortar grid of one 2d-1d interface refined by 3 (lists mix it with conforming 1-d and 0-d interfaces)
+    mdg = pp.meshing.cart_grid([np.array([[0.0, 2.0], [1.0, 1.0]]), np.array([[1.0, 1.0], [0.0, 2.0]])], np.array([2, 2]))
+    intf = mdg.interfaces(dim=1)[0]
+    mdg.replace_subdomains_and_interfaces(interface_map={intf: {s: pp.refinement.refine_grid_1d(g, ratio=3) for s, g in intf.side_grids.items()}})
+    mdg.compute_geometry()
+    out.append(("H: 2-d X-intersection, mortar grid of one 2d-1d interface refined", mdg))
+    # I: 3-D tetrahedral grid with a 2-d triangle grid on its boundary plane x = 0 (hand-built, one-sided interface); the 2-d mortar
+    # grid is replaced by another triangulation of the same square (not nested: overlaps computed by match_2d)
+    g3 = pp.StructuredTetrahedralGrid(np.array([1, 1, 1]))
+    g3.compute_geometry()
+    faces = np.where(np.abs(g3.face_centers[0]) < 1e-10)[0]
+    g2, _, _ = pp.partition.extract_subgrid(g3, faces, faces=True)
+    g2.compute_geometry()
+    mdg = pp.MixedDimensionalGrid()
+    mdg.add_subdomains([g3, g2])
+    fc = sps.csc_matrix((np.ones(g2.num_cells), (np.arange(g2.num_cells), faces)), shape=(g2.num_cells, g3.num_faces))
+    mdg.add_interface(pp.MortarGrid(2, {MS.LEFT_SIDE: g2.copy()}, fc), (g3, g2), fc)
+    mdg.compute_geometry()
+    tri = pp.StructuredTriangleGrid(np.array([2, 1]), np.array([1.0, 1.0]))
+    tri.nodes = np.vstack([np.zeros(tri.num_nodes), tri.nodes[0], tri.nodes[1]])
+    tri.compute_geometry()
+    mdg.replace_subdomains_and_interfaces(interface_map={mdg.interfaces()[0]: {MS.LEFT_SIDE: tri}})
+    mdg.compute_geometry()
+    mdg.set_boundary_grid_projections()
+    out.append(("I: 3-d tetrahedra with a 2-d triangle grid on a boundary plane, 2-d mortar grid re-triangulated (not nested)", mdg))
+    return out
+
+
+def primary_side_nonconforming(np, mdg):
+    """Interfaces of the md-grid whose integrating and averaging mortar -> primary projections differ (from the per-interface matrices)."""
+    out = []
+    for n, intf in enumerate(mdg.interfaces()):
+        a, b = intf.mortar_to_primary_int(1), intf.mortar_to_primary_avg(1)
+        if a.shape != b.shape or abs(a - b).max() > 1e-6:
+            out.append(n)
     return out
 
 
@@ -294,10 +367,20 @@ def mortar_expected(np, mdg, S, J, dim, name, pairs):
                           np.concatenate(vals) if vals else np.zeros(0))
 
 
-def check_mortar_projections(pp, np, mdg, subs, intfs, Sidx, Jidx, dim, sw, rep, name):
+_NONCONF = {}
+
+
+def check_mortar_projections(pp, np, mdg, subs, intfs, Sidx, Jidx, dim, sw, rep, name, history="forward"):
+    """history "forward": the eight projections are requested once, in the order of MORTAR_NAMES, from one MortarProjections object.
+    history "reverse+repeat": requested in the reversed order (averaging before integrating, secondary before primary) and then all a
+    second time from the same object (the object stores the matrices it has built); every returned matrix must be the expected one."""
     S, J = [subs[i] for i in Sidx], [intfs[i] for i in Jidx]
     codim = sorted({i.codim for i in J})
     pairs = {id(i): tuple(mdg.interface_to_subdomain_pair(i)) for i in J}
+    if name not in _NONCONF:
+        _NONCONF[name] = set(primary_side_nonconforming(np, mdg))
+    nc = [j in _NONCONF[name] for j in Jidx]
+    conf = "" if not any(nc) else ("; primary side non-conforming: " + ("all interfaces" if all(nc) else "some interfaces"))
 
     def listed(which):
         gs = [pairs[id(i)][0 if which == "primary" else 1] for i in J]
@@ -311,10 +394,16 @@ def check_mortar_projections(pp, np, mdg, subs, intfs, Sidx, Jidx, dim, sw, rep,
     except Exception as e:  # noqa: BLE001
         rep.violation("MortarProjections: constructed for any subdomain / interface lists", f"co-dimension {codim}", inputs=inputs, detail=f"{order}: {type(e).__name__}: {e}", confirmed=True)
         return
-    for nm in MORTAR_NAMES:
+    if history != "forward":
+        inputs["history"] = history
+    calls = [(nm, 1) for nm in MORTAR_NAMES] if history == "forward" else \
+        [(nm, 1) for nm in reversed(MORTAR_NAMES)] + [(nm, 2) for nm in MORTAR_NAMES]
+    for nm, nth in calls:
         which = "primary" if "primary" in nm else "secondary"
-        sig = f"codim {codim}; {which} subdomains listed: {listed(which)}"
-        sw.case(key=(name, dim, tuple(Sidx), tuple(Jidx), nm), nontrivial=len(S) > 0 and len(J) > 0, sample=dict(inputs, method=nm) if len(Sidx) == 2 and len(Jidx) == 2 else None)
+        sig = f"codim {codim}; {which} subdomains listed: {listed(which)}" + (conf if which == "primary" else "") + \
+            ("" if history == "forward" else ("; requested in reversed order" if nth == 1 else "; second request on the same object"))
+        sw.case(key=(name, dim, tuple(Sidx), tuple(Jidx), nm) + (() if history == "forward" else (history, nth)), nontrivial=len(S) > 0 and len(J) > 0,
+                sample=dict(inputs, method=nm) if len(Sidx) == 2 and len(Jidx) == 2 else None)
         try:
             got = canon(np, getattr(proj, nm)().parse(mdg))
         except Exception as e:  # noqa: BLE001
@@ -322,8 +411,12 @@ def check_mortar_projections(pp, np, mdg, subs, intfs, Sidx, Jidx, dim, sw, rep,
             continue
         E = mortar_expected(np, mdg, S, J, dim, nm, pairs)
         if not same(np, got, E, 1e-12):
+            dv = ""
+            if got[0] == E[0] and got[1].size == E[1].size and np.array_equal(got[1], E[1]) and np.array_equal(got[2], E[2]):
+                k = int(np.argmax(np.abs(got[3] - E[3])))
+                dv = f"; same sparsity pattern, entry ({int(got[1][k])}, {int(got[2][k])}) = {got[3][k]:.6g} expected {E[3][k]:.6g} (weights of intf.{nm})"
             rep.violation(f"MortarProjections.{nm}: per-interface blocks at global offsets", sig, inputs=dict(inputs, method=nm),
-                          detail=f"{order}: shape {got[0]} expected {E[0]}; non-zeros {got[1].size} expected {E[1].size}", confirmed=True)
+                          detail=f"{order}: shape {got[0]} expected {E[0]}; non-zeros {got[1].size} expected {E[1].size}{dv}", confirmed=True)
 
 
 def boundary_block(np, g, dim):
@@ -519,17 +612,24 @@ def run(rep):
     rep.trust("per-interface projections MortarGrid.*(nd) as reference blocks of the mortar clause (covered by C26)")
     mdgs = build_mdgs(pp, np)
     dims = (1, 2, 3)
+    for name, mdg in mdgs:
+        # guard against a vacuous extension: the md-grids F - I must have an interface whose integrating and averaging projections
+        # to the primary grid differ, A - E must not (their signatures say nothing about the primary side)
+        if (len(primary_side_nonconforming(np, mdg)) > 0) != (name[0] in "FGHI"):
+            raise RuntimeError(f"md-grid {name}: unexpected conformity of the mortar grids on the primary side")
+    # md-grid H has the same kind of subdomains as A; it differs in the mortar grid only and is used in the MortarProjections sweep
+    sub_mdgs = [(n, m) for n, m in mdgs if not n.startswith("H")]
 
     with rep.sweep(
         "SubdomainProjections",
-        rule="for each md-grid (A, B, C, D) and dim in {1,2,3}: every ordered subset of the subdomains as constructor list x every ordered subset of it as argument "
+        rule="for each md-grid (A - G, I) and dim in {1,2,3}: every ordered subset of the subdomains as constructor list x every ordered subset of it as argument "
              "x {cell,face}_{prolongation,restriction} (quick tier: 3-element arguments of 4-element constructor lists and dim 2 on md-grid C are skipped); matrix "
              "compared entrywise with the expected 0/1 matrix; non-trivial when the argument is non-empty; distinct by (md-grid, dim, constructor list, argument "
              "list, method)",
         bound="md-grids with <= 4 subdomains; dim <= 3",
         exhaustive=not quick,
     ) as sw:
-        for name, mdg in mdgs:
+        for name, mdg in sub_mdgs:
             subs = mdg.subdomains()
             for dim in dims:
                 if quick and name.startswith("C") and dim == 2:
@@ -539,12 +639,12 @@ def run(rep):
 
     with rep.sweep(
         "BoundaryProjection",
-        rule="for each md-grid and dim in {1,2,3}: every ordered subset of the subdomains; subdomain_to_boundary / boundary_to_subdomain compared with the "
+        rule="for each md-grid (A - G, I) and dim in {1,2,3}: every ordered subset of the subdomains; subdomain_to_boundary / boundary_to_subdomain compared with the "
              "tag-based selection blocks at the face offsets; non-trivial when the list is non-empty",
         bound="md-grids with <= 4 subdomains; dim <= 3",
         exhaustive=True,
     ) as sw:
-        for name, mdg in mdgs:
+        for name, mdg in sub_mdgs:
             subs = mdg.subdomains()
             for dim in dims:
                 for Sidx in ordered_subsets(subs):
@@ -575,6 +675,37 @@ def run(rep):
                 for Sidx, Jidx in pairs:
                     check_mortar_projections(pp, np, mdg, subs, intfs, Sidx, Jidx, dim, sw, rep, name)
 
+    with rep.sweep(
+        "MortarProjections, order of requests",
+        rule="for each md-grid and dim in {1,2,3}: one MortarProjections object per (subdomain list, interface list); the 8 projections requested in the "
+             "reversed order (averaging before integrating, secondary before primary) and then all 8 a second time from the same object, each returned "
+             "matrix compared with the per-interface blocks at the global offsets; thorough: subdomain lists {md-grid order, reversed, each single "
+             "subdomain} x every ordered interface subset of one co-dimension; quick: all subdomains in md-grid order x {all interfaces of a "
+             "co-dimension in md-grid order, the same reversed, each single interface} plus 5 seeded pairs; non-trivial when both lists are non-empty",
+        bound="md-grids with <= 4 subdomains and <= 4 interfaces; dim <= 3",
+        exhaustive=False,
+    ) as sw:
+        for name, mdg in mdgs:
+            subs, intfs = mdg.subdomains(), mdg.interfaces()
+            n = len(subs)
+            J_all = interface_lists(intfs, rep.tier, rep.rng)
+            by_codim = {}
+            for k, i in enumerate(intfs):
+                by_codim.setdefault(i.codim, []).append(k)
+            for dim in dims:
+                if quick:
+                    Js = {(k,) for k in range(len(intfs))}
+                    for idx in by_codim.values():
+                        Js |= {tuple(idx), tuple(reversed(idx))}
+                    pairs = {(tuple(range(n)), j) for j in Js}
+                    S_all = ordered_subsets(subs)
+                    pairs |= {(rep.rng.choice(S_all), rep.rng.choice(J_all)) for _ in range(5)}
+                else:
+                    Ss = {tuple(range(n)), tuple(reversed(range(n)))} | {(k,) for k in range(n)}
+                    pairs = {(s, j) for s in Ss for j in J_all}
+                for Sidx, Jidx in sorted(pairs):
+                    check_mortar_projections(pp, np, mdg, subs, intfs, Sidx, Jidx, dim, sw, rep, name, history="reverse+repeat")
+
 
 def replay(data):
     import warnings
@@ -595,7 +726,8 @@ def replay(data):
         if inp.get("operator") == "SubdomainProjections":
             check_subdomain_projections(pp, np, mdg, subs, tuple(inp["constructor"]), inp["dim"], sw, rep, name)
         elif inp.get("operator") == "MortarProjections":
-            check_mortar_projections(pp, np, mdg, subs, intfs, tuple(inp["subdomains"]), tuple(inp["interfaces"]), inp["dim"], sw, rep, name)
+            check_mortar_projections(pp, np, mdg, subs, intfs, tuple(inp["subdomains"]), tuple(inp["interfaces"]), inp["dim"], sw, rep, name,
+                                     history=inp.get("history", "forward"))
         elif inp.get("operator") == "BoundaryProjection":
             check_boundary_projection(pp, np, mdg, subs, tuple(inp["subdomains"]), inp["dim"], sw, rep, name)
     for v in rep.violations:
